@@ -125,10 +125,11 @@ NextPeriod(p, N, startup, v) ==
           IN IF R = {} THEN None ELSE At(MinT({ r.t : r \in R }))
 
 \* ------------------------------------------------------------------ cron()
+In(x, seq) == \E i \in 1..Len(seq) : seq[i] = x          \* membership in a sequence
 \* crontab's day rule: day of month and day of week both restricted -> either may match
-DayCond(c, dom, wd) == IF c.domstar \/ c.dowstar THEN dom \in Range(c.doms) /\ wd \in Range(c.dows)
-                       ELSE dom \in Range(c.doms) \/ wd \in Range(c.dows)
-CronDayOk(c, day) == LET cv == Civil(day) IN cv.m \in Range(c.mons) /\ DayCond(c, cv.d, Weekday(day))
+DayCond(c, dom, wd) == IF c.domstar \/ c.dowstar THEN In(dom, c.doms) /\ In(wd, c.dows)
+                       ELSE In(dom, c.doms) \/ In(wd, c.dows)
+CronDayOk(c, day) == LET cv == Civil(day) IN In(cv.m, c.mons) /\ DayCond(c, cv.d, Weekday(day))
 \* the days of month (y, m) that satisfy the day rule
 MonthDays(c, y, m) == { DaysFromCivil(y, m, d) : d \in { dd \in 1..DaysIn(y, m) : DayCond(c, dd, Weekday(DaysFromCivil(y, m, dd))) } }
 \* least day after d0 that satisfies month and day rule (searched month by month, up to 5 years), or -1
@@ -136,17 +137,18 @@ NextCronDay(c, d0) ==
   LET cv  == Civil(d0)
       mi0 == cv.y * 12 + cv.m - 1
       MonthNo(k) == ((mi0 + k) % 12) + 1
-      MD(k) == IF MonthNo(k) \in Range(c.mons)
+      MD(k) == IF In(MonthNo(k), c.mons)
                THEN { d \in MonthDays(c, (mi0 + k) \div 12, MonthNo(k)) : d > d0 } ELSE {}
-      K(lo, hi) == { k \in lo..hi : MD(k) # {} }
-  IN IF K(0, 1) # {} THEN MinN(MD(MinN(K(0, 1))))
-     ELSE IF K(2, 12) # {} THEN MinN(MD(MinN(K(2, 12))))
-     ELSE IF K(13, 60) # {} THEN MinN(MD(MinN(K(13, 60)))) ELSE 0 - 1
+      First(lo, hi) == LET Ks == { k \in lo..hi : MD(k) # {} } IN IF Ks = {} THEN 0 - 1 ELSE MinN(Ks)
+      k1 == First(0, 1)
+      k2 == First(2, 12)
+      k3 == First(13, 60)
+  IN IF k1 >= 0 THEN MinN(MD(k1)) ELSE IF k2 >= 0 THEN MinN(MD(k2)) ELSE IF k3 >= 0 THEN MinN(MD(k3)) ELSE 0 - 1
 \* membership: the wall-clock second `sec` (naive) is an instant of the cron specification
 CronDenotes(c, sec) == /\ CronDayOk(c, sec \div 86400)
-                       /\ (sec % 86400) \div 3600 \in Range(c.hours)
-                       /\ (sec % 3600) \div 60 \in Range(c.mins)
-                       /\ sec % 60 \in Range(c.secs)
+                       /\ In((sec % 86400) \div 3600, c.hours)
+                       /\ In((sec % 3600) \div 60, c.mins)
+                       /\ In(sec % 60, c.secs)
 \* least second-of-day in hours x mins x secs (lexicographic = numeric order) greater than s0, or -1
 TodSucc(c, s0) ==
   LET H == Range(c.hours)  M == Range(c.mins)  S == Range(c.secs)
@@ -215,9 +217,9 @@ InRange(r, t, startup) ==
   IN IF Le(s, e) THEN Le(s, t) /\ Le(t, e)            \* both end points included
      ELSE Le(s, t) \/ Le(t, e)                        \* end before start: wraps around midnight
 CronMatch(w, t) == /\ CronDayOk(w.c, DayOf(t))
-                   /\ SecOfDay(t) \div 3600 \in Range(w.c.hours)
-                   /\ (t[1] % 3600) \div 60 \in Range(w.c.mins)
-                   /\ w.hassec => t[1] % 60 \in Range(w.c.secs)
+                   /\ In(SecOfDay(t) \div 3600, w.c.hours)
+                   /\ In((t[1] % 3600) \div 60, w.c.mins)
+                   /\ w.hassec => In(t[1] % 60, w.c.secs)
 InWindow(w, t, startup) == IF w.k = "cron" THEN CronMatch(w, t) ELSE InRange(w, t, startup)
 Active(specs, t, startup) ==
   LET pos == { i \in 1..Len(specs) : ~specs[i].neg }
